@@ -364,7 +364,9 @@ func TestC12(t *testing.T) {
 	step := run.Pick(3, 1)
 	for rep := 0; rep < run.Pick(1, 12); rep++ {
 		for k := 0; k < len(cfgs); k++ {
-			if k%step != run.Pick(int(run.Seed())%3, 0) {
+			// (the stride is skewed so that one residue still meets every value of every dimension: labels
+			// cycle with period 3 in the list)
+			if (k+k/3+k/9+k/27)%step != run.Pick(int(run.Seed())%3, 0) {
 				continue
 			}
 			cfg := cfgs[k]
